@@ -106,7 +106,7 @@ def ruleStr : TagRule → String
 
 def run2 (args : List String) : Option String :=
   match args with
-  | ["unaryops"] => some (",".intercalate (unaryTable.map (fun (n, r) => s!"{n}|{ruleStr r}")))
+  | ["unaryops"] => some (",".intercalate ((unaryTable ++ unaryTableGeoBox).map (fun (n, r) => s!"{n}|{ruleStr r}")))
   | ["unary", name, self, arg] => do
     let rule ← findUnary name
     let self ← parseTag? self; let arg ← parseTag? arg
